@@ -89,12 +89,14 @@ def _cases(ctx, nl):
             lensgen.reorder_fields(spec, rng)      # the maximum field does not depend on the order of the field list
             hist['fields_reordered'] = hist.get('fields_reordered', 0) + 1
         edits = []
+        route = {3: 'reuse', 5: 'roundtrip'}.get(li % 7, 'direct') if li >= len(corp) else 'direct'
+        hist['route_' + route] = hist.get('route_' + route, 0) + 1
         try:
-            o = lensgen.build(spec)
-            if li % 3 == 1:
+            o = lensgen.build_via(spec, route, rng)
+            if li % 3 == 1 or route == 'roundtrip':
                 # query, edit through the public setters, query again: stale caches / missed updates show up here
                 paraxcorr.impl_queries(o)
-                edits = lensgen.random_edits(o, spec, rng)
+                edits = lensgen.random_edits(o, spec, rng, kinds=(['index', 'index', 'radius'] if route == 'roundtrip' else None))
                 hist['edited'] = hist.get('edited', 0) + 1
             ps = paraxcorr.psurfs(o)
             impl = paraxcorr.impl_queries(o)
